@@ -699,7 +699,7 @@ def get_default_physical_units(interface_mode=None):
         units["force_unit"] = "eV/angstrom"
     elif interface_mode == "dftbp":
         units["factor"] = DftbpToTHz
-        units["nac_factor"] = Hartree * Bohr
+        units["nac_factor"] = 1.0
         units["distance_to_A"] = Bohr
         units["force_constants_unit"] = "hartree/au^2"
         units["length_unit"] = "au"
